@@ -428,6 +428,9 @@ RLBootstrap == Kind = "rl" =>
                  /\ \A i \in Rows : hist[i].par[1] \in 1..Len(line)
                  /\ Classes(line) \subseteq Classes(LineUp) \cup {"HaltonSampler"}
 
+(* the constructor accepts exactly one of a sampler list or a scheduler (4-row decision table) *)
+CtorOutcome(hasSamplers, hasScheduler) == IF hasSamplers # hasScheduler THEN "ok" ELSE "ValueError"
+
 (* ---- C14 ---------------------------------------------------------------------------------- *)
 MinUpTo(b) == Min({hist[i].loss : i \in {r \in Rows : hist[r].batch <= b}})
 (* number of batches the last call should have run: up to and including the first batch whose running minimum rounds to zero *)
